@@ -11,12 +11,12 @@ import (
 )
 
 type Box struct {
-	Type   string
-	Start  int // offset of the box in the parent buffer
-	Size   int
-	Hdr    int
-	Body   []byte // payload after the header
-	Raw    []byte
+	Type  string
+	Start int // offset of the box in the parent buffer
+	Size  int
+	Hdr   int
+	Body  []byte // payload after the header
+	Raw   []byte
 }
 
 // Boxes splits b into boxes (32-bit sizes and 64-bit largesize supported).
@@ -117,12 +117,12 @@ func (f *Frag) Dur() uint64 {
 }
 
 type Seg struct {
-	Brands []string // styp major + compatible brands
+	Brands  []string // styp major + compatible brands
 	HasStyp bool
-	Sidx   *Sidx
-	Emsgs  []Emsg
-	Frags  []Frag
-	Order  []string // top-level box types in order
+	Sidx    *Sidx
+	Emsgs   []Emsg
+	Frags   []Frag
+	Order   []string // top-level box types in order
 }
 
 type Sidx struct {
@@ -152,25 +152,25 @@ func (s *Seg) Samples() []Sample {
 
 // Trex holds the track defaults from the init segment.
 type Trex struct {
-	TrackID              uint32
+	TrackID                   uint32
 	DefDur, DefSize, DefFlags uint32
 }
 
 type Init struct {
-	Timescale   uint32
-	TrackID     uint32
-	Trex        Trex
-	SampleEntry string // e.g. avc1, mp4a, encv, stpp
-	OrigFormat  string // frma, if protected
-	Scheme      string // schm scheme type
-	TencKID     string // hex
-	TencIV      []byte
-	TencIVSize  int
+	Timescale           uint32
+	TrackID             uint32
+	Trex                Trex
+	SampleEntry         string // e.g. avc1, mp4a, encv, stpp
+	OrigFormat          string // frma, if protected
+	Scheme              string // schm scheme type
+	TencKID             string // hex
+	TencIV              []byte
+	TencIVSize          int
 	CryptByte, SkipByte int
-	Lang        string
-	Pssh        int
-	Handler     string
-	HasMehd     bool
+	Lang                string
+	Pssh                int
+	Handler             string
+	HasMehd             bool
 }
 
 func ParseInit(b []byte) (*Init, error) {
